@@ -15,7 +15,7 @@ import json, os, shutil, subprocess, sys, threading, queue, time
 
 ENV = dict(os.environ, GOFLAGS='-mod=mod', GOPROXY='off', GOSUMDB='off', GOTOOLCHAIN='local')
 MUT = '/tmp/mut'
-REPO = '/repo'
+REPO = '/tmp/mut/src'   # frozen snapshot of /repo's working tree, taken by 'snapshot' (so that a later fix in /repo does not shift mutant ids)
 VERIF = os.path.dirname(os.path.dirname(os.path.abspath(__file__)))
 ORDER = 'C05 C06 C09 C08 C11 C13 C19 C07 C17 C01 C02 C03 C10 C12 C14 C20 C16 C04 C18 C15'.split()
 
@@ -31,6 +31,47 @@ def sh(cmd, cwd=None, env=None, timeout=None):
 def copy_repo(dst):
     shutil.rmtree(dst, ignore_errors=True)
     shutil.copytree(REPO, dst, ignore=shutil.ignore_patterns('.git'))
+
+
+def snapshot():
+    os.makedirs(MUT, exist_ok=True)
+    shutil.rmtree(REPO, ignore_errors=True)
+    shutil.copytree('/repo', REPO, ignore=shutil.ignore_patterns('.git'))
+    rc, out = sh(['git', '-C', '/repo', 'rev-parse', '--short', 'HEAD'])
+    open(MUT + '/snapshot_commit', 'w').write(out.strip())
+
+
+def stable_keys(muts):
+    """(file, func, op, before, after, k-th such mutant in that func): survives edits elsewhere in the file"""
+    seen = {}
+    out = {}
+    for m in sorted(muts, key=lambda m: m['id']):
+        base = (m['file'], m['func'], m['op'], m['before'], m['after'])
+        k = seen.get(base, 0)
+        seen[base] = k + 1
+        out[m['id']] = base + (k,)
+    return out
+
+
+def carry_over(stage, muts, changed_funcs):
+    """results of an earlier survey (in MUT/old) are reused for mutants outside the functions changed since"""
+    oldp = f'{MUT}/old/{stage}.jsonl'
+    if not os.path.exists(oldp):
+        return []
+    old = [json.loads(l) for l in open(oldp)]
+    okeys = stable_keys([json.loads(l) for l in open(f'{MUT}/old/stage1.jsonl')])
+    byk = {okeys[m['id']]: m for m in old if m['id'] in okeys}
+    nkeys = stable_keys(muts)
+    out = []
+    for m in muts:
+        k = nkeys[m['id']]
+        if m['func'] in changed_funcs or k not in byk:
+            continue
+        o = dict(byk[k])
+        o['id'], o['line'] = m['id'], m['line']
+        o['carried_over'] = True
+        out.append(o)
+    return out
 
 
 def build_mutgen():
@@ -53,6 +94,10 @@ def done_ids(path):
 def stage1(workers):
     muts = build_mutgen()
     outp = MUT + '/stage1.jsonl'
+    if not os.path.exists(outp):
+        with open(outp, 'w') as f:
+            for o in carry_over('stage1', muts, CHANGED):
+                f.write(json.dumps(o) + '\n')
     skip = done_ids(outp)
     q = queue.Queue()
     for m in muts:
@@ -94,6 +139,11 @@ def stage2(lanes):
     s1 = [json.loads(l) for l in open(MUT + '/stage1.jsonl')]
     todo = [m for m in s1 if m['stage1'] == 'suite-survived']
     outp = MUT + '/stage2.jsonl'
+    if not os.path.exists(outp):
+        with open(outp, 'w') as f:
+            for o in carry_over('stage2', s1, CHANGED):
+                if o['id'] in {m['id'] for m in todo}:
+                    f.write(json.dumps(o) + '\n')
     skip = done_ids(outp)
     q = queue.Queue()
     for m in sorted(todo, key=lambda m: m['id']):
@@ -159,8 +209,13 @@ def report():
             print(f"SURVIVOR id={m['id']} {m['file']}:{m['line']} {m['func']} [{m['op']}] {m['before']!r} -> {m['after']!r}")
 
 
+CHANGED = set(os.environ.get('MUT_CHANGED_FUNCS', '').split(',')) - {''}
+
 if __name__ == '__main__':
     cmd = sys.argv[1]
+    if cmd == 'snapshot':
+        snapshot()
+        sys.exit(0)
     n = int(sys.argv[2]) if len(sys.argv) > 2 else 0
     if cmd == 'stage1':
         stage1(n or 10)
